@@ -46,6 +46,7 @@ Class(p, api) == IF p.rcode = 0 THEN (IF (IF api \in {"gai", "ghbn"} THEN Len(p.
 
 HRecv(e) ==
   IF e.res # "ok" \/ "pid" \notin DOMAIN e \/ e.parse = 0 \/ e.fromok = 0 \/ e.qid \notin DOMAIN sqm THEN Skip
+  ELSE IF sqm[e.qid].t \notin DOMAIN sr THEN Skip        \* a late reply to a query of a request that is already over
   ELSE LET m == sqm[e.qid]
            r == sr[m.t]
        IN IF m.idx # r.idx \/ e.tc = 1 THEN Skip
